@@ -169,11 +169,54 @@ def merge_check(cname, uni, kinds, n, fu):
         note(("patch of the source does not open on the merged container", str(e)[:200]))
         return False
     okv = view(both) == vsrc
+    # merging again (merged container + follow-up patch) keeps tree and identity of the newest state
+    want = both.ih5_meta[-1]
+    both.merge_files(FakePath("/d/mrg2"))
     both.close()
     if not okv:
         note("patch gives a different result on the merged container")
         return False
+    m2 = C("/d/mrg2", "r")
+    got, v2 = m2.ih5_meta[0], view(m2)
+    m2.close()
+    if v2 != vsrc:
+        note("second-generation merge shows a different tree")
+        return False
+    if (got.patch_index, got.patch_uuid, got.record_uuid) != (want.patch_index, want.patch_uuid, want.record_uuid):
+        note(("second-generation merge does not identify as the newest patch state", got.patch_index, want.patch_index))
+        return False
     return True
+
+
+def refused_stub(patched: bool, reopened: bool) -> bool:
+    """
+    post: _
+    """
+    # a record set containing a stub is never merged (fresh stub, reopened stub, stub with a patch on top)
+    patched = True if patched else False
+    reopened = True if reopened else False
+    reach()
+    with untraced():
+        INST.reset()
+        r = IH5MFRecord(REC_PATH, "w")
+        r["a"] = 1
+        r.commit_patch()
+        mfile = FakePath(str(r.ih5_files[-1]) + "mf.json")
+        r.close()
+        s = IH5MFRecord.create_stub(FakePath("/d/stub"), mfile)
+        if reopened or patched:
+            s.close()
+            s = IH5MFRecord("/d/stub", "r+" if patched else "r")
+            if patched:
+                s["b"] = 2
+                s.commit_patch()
+        try:
+            s.merge_files(FakePath("/d/stubmerge"))
+            ok = False
+        except ValueError:
+            ok = True
+        s.close()
+        return ok
 
 
 def refused(uncommitted: bool, writable_base: bool) -> bool:
